@@ -16,7 +16,7 @@ import (
 func init() {
 	register(&Prop{
 		ID:          "C12",
-		Decided:     "(1) the operator alternation of the shortcut regexes equals the case sets of compareNum and compareStr, and every case denotes its relation under all orderings (NaN unordered); (2) fallback discipline: the shortcut answers (ok=true) only after a successful type test matching the literal's kind, a missing or NULL field yields ok=false, a compound falls back as a whole when any part does; (3) no lossy coercion: every conversion of a 64-bit (or platform-width) integer to float64 on the shortcut path is reachable only within +-2^53, and a numeric literal is accepted only within +-2^53 (the general engine compares integer kinds as integers); (4) a failing evaluation rejects the row: the bool assertion on the VM result is reached only when err==nil, the error arm returns false, the program is compiled AsBool; (5) every predicate kind of the property (WHERE, HAVING, OVER-WHEN, TRIGGER-WHEN) is compiled by condition.NewExprCondition. Also: the quoted literal of the string shortcut admits no backslash (the general engine unescapes literals). Also: the HAVING filters return nothing when their predicate fails to compile.",
+		Decided:     "(1) the operator alternation of the shortcut regexes equals the case sets of compareNum and compareStr, and every case denotes its relation under all orderings (NaN unordered); (2) fallback discipline: the shortcut answers (ok=true) only after a successful type test matching the literal's kind, a missing or NULL field yields ok=false, a compound falls back as a whole when any part does; (3) no lossy coercion: every conversion of a 64-bit (or platform-width) integer to float64 on the shortcut path is reachable only within +-2^53, and a numeric literal is accepted only within +-2^53 (the general engine compares integer kinds as integers); (4) a failing evaluation rejects the row: the bool assertion on the VM result is reached only when err==nil, the error arm returns false, the program is compiled AsBool; (5) every predicate kind of the property (WHERE, HAVING, OVER-WHEN, TRIGGER-WHEN) is compiled by condition.NewExprCondition. Also: the quoted literal of the string shortcut admits no backslash (the general engine unescapes literals). Also: the HAVING filters return nothing when their predicate fails to compile. Also: in toFloat64Fast and the helpers it delegates to, a 64-bit integer changes signedness (uint64 -> int64) only after a range test, so a wrapped value cannot pass the +-2^53 check.",
 		NotDecided:  "equality of decisions for all values beyond the coercion clause (expr-lang's own semantics for mixed kinds and strings), parenthesised equivalents, NaN/Inf beyond the comparison tables.",
 		Assumptions: []string{"expr-lang v1.17.8 compares two integer-kind operands as integers (runtime.Less/Equal: int(x) < int(y)) and an integer with a float as float64 — read in the module cache"},
 		Run:         runC12,
@@ -426,55 +426,95 @@ func (a *A) ruleLossless() {
 		return ""
 	}
 	n := 0
-	allInstrs(fn, func(in ssa.Instruction) {
-		cv, ok := in.(*ssa.Convert)
-		if !ok {
-			return
+	// the coercion and the helpers it delegates to (same package)
+	scope := []*ssa.Function{fn}
+	for f := range a.ReachFrom([]*ssa.Function{fn}) {
+		if f != fn && f.Pkg == fn.Pkg && f.Blocks != nil {
+			scope = append(scope, f)
 		}
-		src, ok := cv.X.Type().Underlying().(*types.Basic)
-		dst, ok2 := cv.Type().Underlying().(*types.Basic)
-		if !ok || !ok2 || dst.Kind() != types.Float64 {
-			return
-		}
-		wide, signed := false, false
-		switch src.Kind() {
-		case types.Int, types.Int64:
-			wide, signed = true, true
-		case types.Uint, types.Uint64, types.Uintptr:
-			wide = true
-		}
-		if !wide {
-			return
-		}
-		n++
-		xs := TermOf(cv.X, nil).String()
-		roles := []string{"x", "M"}
-		if signed {
-			roles = []string{"x", "M", "m"}
-		}
-		spec := OrdSpec{Roles: roles,
-			Invariant: func(r map[string]int, _ map[string]bool) bool {
-				if signed {
-					return r["m"] < r["M"]
+	}
+	sort.Slice(scope, func(i, j int) bool { return fname(scope[i]) < fname(scope[j]) })
+	top := fn
+	for _, fn := range scope {
+		fn := fn
+		allInstrs(fn, func(in ssa.Instruction) {
+			cv, ok := in.(*ssa.Convert)
+			if !ok {
+				return
+			}
+			src, ok := cv.X.Type().Underlying().(*types.Basic)
+			dst, ok2 := cv.Type().Underlying().(*types.Basic)
+			if ok && ok2 && src.Info()&types.IsInteger != 0 && dst.Info()&types.IsInteger != 0 {
+				// a 64-bit integer re-interpreted with the other signedness wraps: uint64(2^64-5) -> int64(-5)
+				wide64 := func(b *types.Basic) bool {
+					switch b.Kind() {
+					case types.Int, types.Int64, types.Uint, types.Uint64, types.Uintptr:
+						return true
+					}
+					return false
 				}
-				return true
-			},
-			Role: func(t *Term) string {
-				if t.String() == xs {
-					return "x"
+				if wide64(src) && wide64(dst) && (src.Info()&types.IsUnsigned != 0) != (dst.Info()&types.IsUnsigned != 0) {
+					n++
+					guarded := false
+					for _, g := range guardsOf(cv.Block()) {
+						if bo, ok := g.Cond.(*ssa.BinOp); ok {
+							_, kx := bo.X.(*ssa.Const)
+							_, ky := bo.Y.(*ssa.Const)
+							if (bo.X == cv.X && ky) || (bo.Y == cv.X && kx) {
+								guarded = true
+							}
+						}
+					}
+					a.Check(guarded, fmt.Sprintf("%s#resign-%s-to-%s", fname(fn), src.Name(), dst.Name()), cv.Pos(),
+						"the 64-bit value changes signedness only after a range test",
+						fmt.Sprintf("a %s is converted to %s without a range test: values in the top half wrap (uint64 2^64-5 becomes -5), pass the +-2^53 check as small numbers and are compared as such, while the general engine compares the real value", src.Name(), dst.Name()))
 				}
-				return boundRole(t)
-			}}
-		a.OnlyIf(fmt.Sprintf("%s#convert-%s", fname(fn), src.Name()), cv.Pos(), fmt.Sprintf("%s is converted to float64 only within +-2^53 (beyond it the general engine, which compares integers exactly, must decide)", src.Name()), spec,
-			fn.Blocks[0], nil, nil,
-			func(x ssa.Instruction, _ *Walker) bool { return x == in },
-			func(r map[string]int, _ map[string]bool) bool {
-				if signed {
-					return r["x"] <= r["M"] && r["x"] >= r["m"]
-				}
-				return r["x"] <= r["M"]
-			})
-	})
+				return
+			}
+			if !ok || !ok2 || dst.Kind() != types.Float64 {
+				return
+			}
+			wide, signed := false, false
+			switch src.Kind() {
+			case types.Int, types.Int64:
+				wide, signed = true, true
+			case types.Uint, types.Uint64, types.Uintptr:
+				wide = true
+			}
+			if !wide {
+				return
+			}
+			n++
+			xs := TermOf(cv.X, nil).String()
+			roles := []string{"x", "M"}
+			if signed {
+				roles = []string{"x", "M", "m"}
+			}
+			spec := OrdSpec{Roles: roles,
+				Invariant: func(r map[string]int, _ map[string]bool) bool {
+					if signed {
+						return r["m"] < r["M"]
+					}
+					return true
+				},
+				Role: func(t *Term) string {
+					if t.String() == xs {
+						return "x"
+					}
+					return boundRole(t)
+				}}
+			a.OnlyIf(fmt.Sprintf("%s#convert-%s", fname(fn), src.Name()), cv.Pos(), fmt.Sprintf("%s is converted to float64 only within +-2^53 (beyond it the general engine, which compares integers exactly, must decide)", src.Name()), spec,
+				fn.Blocks[0], nil, nil,
+				func(x ssa.Instruction, _ *Walker) bool { return x == in },
+				func(r map[string]int, _ map[string]bool) bool {
+					if signed {
+						return r["x"] <= r["M"] && r["x"] >= r["m"]
+					}
+					return r["x"] <= r["M"]
+				})
+		})
+	}
+	fn = top
 	if n == 0 {
 		a.Ok(fname(fn)+"#convert", fn.Pos(), "no wide-integer conversion on the shortcut path").Trivial = true
 	}
